@@ -35,6 +35,7 @@ type Gen struct {
 	prop     string
 	motif    []Op // queued scripted operations
 	endBad   bool // finish the history with an execution claim for a batch that does not exist
+	importAt int  // step at which the history does a genesis export/import of the module (0 = never)
 }
 
 func (g *Gen) fee() int64 {
@@ -140,7 +141,7 @@ func (g *Gen) next0(s Snap, remaining int) Op {
 		return o
 	}
 	if remaining == 1 && g.endBad {
-		return Op{Kind: "BatchExecuted", Token: r.Intn(4), Nonce: s.Ctr[1] + uint64(r.Intn(2)), H: s.Ext + 1}
+		return Op{Kind: "BatchExecuted", Token: r.Intn(5), Nonce: s.Ctr[1] + uint64(r.Intn(2)), H: s.Ext + 1}
 	}
 	// scripted motifs, occasionally
 	if r.Chance(6) {
@@ -177,7 +178,7 @@ func (g *Gen) next0(s Snap, remaining int) Op {
 		o := Op{Kind: "Send", Sender: r.Intn(3), Dest: r.Intn(3), Amount: int64(1 + r.Intn(400)), Fee: g.fee(), Token: r.Intn(4)}
 		if r.Chance(22) { // started from the EVM through the crossChain precompile: FX as value, or the registered coin's ERC-20
 			o.Kind = "SendP"
-			o.Token = []int{0, 3, 3}[r.Intn(3)]
+			o.Token = []int{0, 3, 3, 4, 4}[r.Intn(5)]
 			if r.Chance(8) {
 				o.Fee = 0 // the precompile accepts a zero fee
 			}
@@ -188,7 +189,7 @@ func (g *Gen) next0(s Snap, remaining int) Op {
 		}
 		switch x := r.Intn(100); {
 		case x < 3:
-			o.Token = 4
+			o.Token = 5
 		case x < 5:
 			o.Amount = 0
 		case x < 7:
@@ -198,7 +199,7 @@ func (g *Gen) next0(s Snap, remaining int) Op {
 		}
 		return o
 	case 1:
-		o := Op{Kind: "Cancel", Who: r.Intn(3)}
+		o := Op{Kind: "Cancel", Who: r.Intn(3), Evm: r.Chance(35)}
 		switch x := r.Intn(100); {
 		case x < 70 && len(s.Pool) > 0:
 			t := s.Pool[r.Intn(len(s.Pool))]
@@ -225,11 +226,21 @@ func (g *Gen) next0(s Snap, remaining int) Op {
 			b := s.Batches[r.Intn(len(s.Batches))]
 			o.ID, o.Token = b.Txs[0].ID, b.Token
 		} else {
-			o.ID, o.Token = uint64(r.Intn(int(s.Ctr[0])+2)), r.Intn(4)
+			o.ID, o.Token = uint64(r.Intn(int(s.Ctr[0])+2)), r.Intn(5)
+		}
+		if r.Chance(35) { // through the increaseBridgeFee precompile: FX as msg.value, or ERC-20 tokens
+			o.Kind, o.Which = "IncreaseFeeP", 0
+			if r.Chance(5) {
+				o.Add = 5000 // more than the payer holds
+			}
+			if r.Chance(6) {
+				o.Token = r.Intn(6)
+			}
+			return o
 		}
 		switch x := r.Intn(100); {
 		case x < 6:
-			o.Token = r.Intn(5)
+			o.Token = r.Intn(6)
 		case x < 12:
 			o.Which = 0
 		case x < 15:
@@ -239,14 +250,14 @@ func (g *Gen) next0(s Snap, remaining int) Op {
 		}
 		return o
 	case 3:
-		o := Op{Kind: "RequestBatch", Token: r.Intn(4), Which: 1, FeeRcv: r.Intn(3), Auth: !r.Chance(7), ID: uint64(r.Intn(3)),
+		o := Op{Kind: "RequestBatch", Token: r.Intn(5), Which: 1, FeeRcv: r.Intn(3), Auth: !r.Chance(7), ID: uint64(r.Intn(3)),
 			BaseFee: []int64{0, 0, 0, 1, 3, 5, 6, 100}[r.Intn(8)], MinFee: []int64{1, 1, 1, 5, 12, 1000}[r.Intn(6)]}
 		if len(s.Pool) > 0 && r.Chance(60) {
 			o.Token = s.Pool[r.Intn(len(s.Pool))].Token
 		}
 		switch x := r.Intn(100); {
 		case x < 3:
-			o.Token = 4
+			o.Token = 5
 		case x < 8:
 			o.Which = 0
 		case x < 10:
@@ -292,6 +303,9 @@ func (g *Gen) next0(s Snap, remaining int) Op {
 			if r.Chance(60) || p.Amount == 0 {
 				p.Coins = [][2]int64{{3, int64(1 + r.Intn(120))}}
 			}
+			if g.prop == "C05" && r.Chance(4) {
+				p.Coins = [][2]int64{{4, int64(1 + r.Intn(50))}} // an externally owned ERC-20: its refund cannot be paid (finding C05-3)
+			}
 			if r.Chance(4) {
 				p.Coins = [][2]int64{{3, 2000}} // more ERC-20 than the caller holds
 			}
@@ -312,7 +326,7 @@ func (g *Gen) next0(s Snap, remaining int) Op {
 			o.Memo = append(o.Memo, byte(r.Intn(256)))
 		}
 		if r.Chance(3) {
-			o.Coins = append(o.Coins, [2]int64{4, 5})
+			o.Coins = append(o.Coins, [2]int64{5, 5})
 		}
 		if r.Chance(3) && len(o.Coins) > 0 {
 			o.Coins[0][1] = 9000 // more than the balance
@@ -342,7 +356,7 @@ func (g *Gen) next0(s Snap, remaining int) Op {
 		}
 		return o
 	case 8:
-		o := Op{Kind: "ExecResult", E: 9999}
+		o := Op{Kind: "ExecResult", E: 9999, Evm: r.Chance(35)}
 		if len(s.Pending) > 0 && r.Chance(90) {
 			o.E = s.Pending[r.Intn(len(s.Pending))].E
 		}
